@@ -993,6 +993,79 @@ def b_sorted(I, it, key=None, reverse=False):
     return sorted(xs, reverse=reverse)
 
 
+class Memoised:
+    """functools.lru_cache / functools.cache around a repo function: calls with equal arguments return THE SAME
+    object as the first such call (so in-place updates of a returned tensor are seen by every later caller).
+    Keys: numbers / strings / None by value (symbolic numbers: decided by the path condition), objects and tensors by
+    identity (torch.Tensor and plain classes hash by identity).  Eviction (maxsize) is not modelled: an evicted entry
+    is recomputed, which for a deterministic function differs from a hit only in object identity -- a scenario that
+    depends on that gets the never-evicting behaviour, the one every call sequence shorter than maxsize has."""
+
+    def __init__(self, f):
+        self.f = f
+        self.entries = []
+
+    def _same(self, I, a, b):
+        from .tlib import Tensor
+
+        if a is b:
+            return True
+        if is_sym(a) or is_sym(b):
+            if isinstance(a, (str, type(None))) or isinstance(b, (str, type(None))):
+                return False
+            return I.decide(zt(a) == zt(b))
+        if isinstance(a, (bool, int, float, str, type(None))) and isinstance(b, (bool, int, float, str, type(None))):
+            return a == b  # Python's own key equality (1 == 1.0 == True share an entry unless typed=True)
+        if isinstance(a, tuple) and isinstance(b, tuple):
+            return len(a) == len(b) and all(self._same(I, x, y) for x, y in zip(a, b))
+        if isinstance(a, (list, dict, set)) or isinstance(b, (list, dict, set)):
+            raise _I().RaisedEx("TypeError", "unhashable type")
+        IN = _I()
+        for v in (a, b):
+            if isinstance(v, IN.SObj) and (I.find_method(v.cls, "__eq__")[1] is not None or I.find_method(v.cls, "__hash__")[1] is not None):
+                raise Unsupported("memoised function keyed by an object with its own __eq__/__hash__")
+        return False
+
+    def tpv_call(self, I, args, kwargs):
+        key = (tuple(args), tuple(sorted(kwargs.items())))
+        for k, v in self.entries:
+            if len(k[0]) == len(key[0]) and [n for n, _ in k[1]] == [n for n, _ in key[1]] and all(self._same(I, x, y) for x, y in zip(k[0], key[0])) and all(self._same(I, x[1], y[1]) for x, y in zip(k[1], key[1])):
+                return v
+        v = I.call(self.f, list(args), dict(kwargs))
+        self.entries.append((key, v))
+        return v
+
+    def tpv_getattr(self, I, name):
+        IN = _I()
+        if name == "cache_clear":
+            return IN.Builtin("cache_clear", lambda I2: self.entries.clear())
+        if name == "__wrapped__":
+            return self.f
+        return I.getattr(self.f, name)
+
+    def __repr__(self):
+        return f"<memoised {self.f!r}>"
+
+
+def make_functools(I):
+    IN = _I()
+    B = IN.Builtin
+
+    def lru_cache(I2, *a, **k):
+        # @lru_cache  |  @lru_cache(maxsize=..., typed=...)
+        if len(a) == 1 and not k and not isinstance(a[0], (int, type(None))) and not is_sym(a[0]):
+            return Memoised(a[0])
+        return B("lru_cache(...)", lambda I3, f: Memoised(f))
+
+    def wraps(I2, wrapped, *a, **k):
+        return B("wraps(...)", lambda I3, f: f)
+
+    def partial(I2, f, *a, **k):
+        return B("partial", lambda I3, *b, **kk: I3.call(f, list(a) + list(b), {**k, **kk}))
+
+    return IN.StubModule("functools", {"lru_cache": B("lru_cache", lru_cache), "cache": B("cache", lambda I2, f: Memoised(f)), "wraps": B("wraps", wraps), "partial": B("partial", partial), "cached_property": B("cached_property", lambda I2, f: (_ for _ in ()).throw(Unsupported("cached_property outside a class body")))})
+
+
 def b_getattr(I, o, name, *default):
     IN = _I()
     try:
@@ -1586,6 +1659,7 @@ def install(I):
 
     I.repo.externals["inspect"] = IN.StubModule("inspect", {"getfullargspec": B("getfullargspec", getfullargspec), "isfunction": B("isfunction", _isfunction), "signature": B("signature", lambda I2, f: (_ for _ in ()).throw(Unsupported("inspect.signature")))})
     # weak dictionaries behave like dictionaries as long as their keys are alive (they are, during one scenario)
+    I.repo.externals["functools"] = make_functools(I)
     I.repo.externals["weakref"] = IN.StubModule("weakref", {"WeakKeyDictionary": dict, "WeakValueDictionary": dict})
     I.repo.externals["copy"] = IN.StubModule("copy", {"deepcopy": B("deepcopy", deepcopy), "copy": B("copy", shallow_copy)})
     from . import tlib
